@@ -1,6 +1,7 @@
 package main
 
 import (
+	"go/token"
 	"go/types"
 	"strings"
 
@@ -412,7 +413,79 @@ func c02R3(h H) {
 				p, root := fieldPath(hc.Call.Args[0])
 				return p == "Path" && root == urlRoot
 			})
-			r.Check(onlyVia(fn, c, edges), "R3", construct, c.Pos(),
+			held := onlyVia(fn, c, edges)
+			if !held {
+				// value form of the same argument: the '//'-stripping ran on a local copy of the path; then every
+				// store into <URL>.Path that can be the last one before the redirect must store (a value extended
+				// only at its end from) a string v with the false edge of strings.HasPrefix(v, "//") dominating it
+				isPathStore := func(in ssa.Instruction) bool {
+					st, ok := in.(*ssa.Store)
+					if !ok {
+						return false
+					}
+					p, root := fieldPath(st.Addr)
+					return p == "Path" && root == urlRoot
+				}
+				var stores []*ssa.Store
+				allInstrs(fn, func(in ssa.Instruction) {
+					if isPathStore(in) {
+						stores = append(stores, in.(*ssa.Store))
+					}
+				})
+				nLast, okAll := 0, true
+				for _, st := range stores {
+					if !canReach(fn, st, c, cut{instr: func(in ssa.Instruction) bool { return in != ssa.Instruction(st) && isPathStore(in) }}) {
+						continue
+					}
+					nLast++
+					base := st.Val
+					at := ssa.Instruction(st)
+					for {
+						if b, ok := base.(*ssa.BinOp); ok && b.Op == token.ADD {
+							if _, isC := constString(b.Y); isC {
+								base = b.X
+								continue
+							}
+						}
+						// a re-load of <URL>.Path: continue from the store it reads (same block, nothing in between)
+						if ld, ok := base.(*ssa.UnOp); ok && ld.Op == token.MUL {
+							if p, root := fieldPath(ld.X); p == "Path" && root == urlRoot {
+								var prev *ssa.Store
+								for _, in := range ld.Block().Instrs {
+									if in == ssa.Instruction(ld) {
+										break
+									}
+									if isPathStore(in) {
+										prev = in.(*ssa.Store)
+									}
+								}
+								if prev != nil {
+									base, at = prev.Val, prev
+									continue
+								}
+							}
+						}
+						break
+					}
+					ve := guardEdges(fn, false, func(v ssa.Value) bool {
+						hc, ok := v.(*ssa.Call)
+						if !ok || calleeName(&hc.Call) != "strings.HasPrefix" {
+							return false
+						}
+						if s, ok := constString(hc.Call.Args[1]); !ok || s != "//" {
+							return false
+						}
+						return hc.Call.Args[0] == base
+					})
+					if !onlyVia(fn, at, ve) {
+						okAll = false
+					}
+				}
+				// no path may reach the redirect without any such store
+				viaStore := !canReach(fn, nil, c, cut{instr: isPathStore})
+				held = nLast > 0 && okAll && viaStore
+			}
+			r.Check(held, "R3", construct, c.Pos(),
 				"the redirect is issued only after the target path no longer starts with '//' (otherwise Location: //host/… leaves the origin)", describe(target))
 		}
 	}
